@@ -28,7 +28,7 @@ def _cfgs(tier):
     n, d = (16, 3) if big else (8, 2)
     return [
         S.Cfg(ascii_only=False, max_items=n, depth=d),
-        S.Cfg(ascii_only=False, max_items=n, depth=d, params=True),
+        S.Cfg(ascii_only=False, max_items=n, depth=d, params=True, complex_coefficients=True),
         S.Cfg(ascii_only=False, max_items=n, depth=d, regs=True),
         S.Cfg(ascii_only=False, max_items=n, depth=d, params=True, regs=True),
         S.Cfg(ascii_only=False, max_items=n, depth=d, tdm=True, params=True, sym_vars=False),
